@@ -232,6 +232,16 @@ def _register_inline_functions(repo) -> None:
                 okc, val = _cv(st.value)
                 if okc and isinstance(val, (int, float)) and not isinstance(val, bool):
                     consts.setdefault(st.targets[0].id, []).append(val)
+    from . import enumcond as _ec
+    _ec.ENUM_LIST_CONSTANTS.clear()
+    coll = {}
+    for mi in mods.values():
+        for st in mi.tree.body:
+            if isinstance(st, _ast.Assign) and len(st.targets) == 1 and isinstance(st.targets[0], _ast.Name):
+                c = _ec._member_collection(st.value)
+                if c is not None and c.elts and all(_ec._member(e) for e in c.elts):
+                    coll.setdefault(st.targets[0].id, []).append(st.value)
+    _ec.ENUM_LIST_CONSTANTS.update({k: v[0] for k, v in coll.items() if len(v) == 1 and (k.isupper() or k.startswith('_'))})
     algebra.MODULE_CONSTANTS.clear()
     algebra.MODULE_CONSTANTS.update({k: v[0] for k, v in consts.items() if len(v) == 1 and (k.isupper() or k.startswith('_'))})
     algebra.INLINE_FUNCTIONS.clear()
